@@ -126,12 +126,16 @@ Qed.
 
 Section Sound.
 Variable c : list block.
+(** [U]: every block the wallet was ever offered (the current chain [c] and the branches it left);
+    notes and their spenders may stem from any of them, scanned blocks only from [c]. *)
+Variable U : list block.
+Hypothesis HcU : incl c U.
 
 Definition note_sound (n : note) : Prop :=
-  (exists b t o, In b c /\ In t (b_txs b) /\ In o (t_outs t) /\ o_owner o = Some (n_acct n)
+  (exists b t o, In b U /\ In t (b_txs b) /\ In o (t_outs t) /\ o_owner o = Some (n_acct n)
                  /\ o_key o = n_key n /\ o_value o = n_value n /\ t_id t = n_recv n)
   /\ (forall tid, In tid (n_spent n) ->
-        exists b t, In b c /\ In t (b_txs b) /\ t_id t = tid /\ In (n_key n) (t_spends t)).
+        exists b t, In b U /\ In t (b_txs b) /\ t_id t = tid /\ In (n_key n) (t_spends t)).
 
 Definition loc_sound (x : loc) : Prop :=
   let '(h, i, tid) := x in
@@ -203,7 +207,7 @@ Qed.
 
 Lemma mark_spent_sound txs k tid l l' :
   mark_spent txs k tid l = Some l' ->
-  (exists b t, In b c /\ In t (b_txs b) /\ t_id t = tid /\ In k (t_spends t)) ->
+  (exists b t, In b U /\ In t (b_txs b) /\ t_id t = tid /\ In k (t_spends t)) ->
   Forall note_sound l -> Forall note_sound l' /\ map n_key l' = map n_key l.
 Proof.
   intros H Ht Hl. destruct (mark_spent_spec _ _ _ _ _ H) as [Hk Hf]. split; [|assumption].
@@ -217,7 +221,7 @@ Qed.
 
 Lemma mark_all_sound txs tid : forall ks l l',
   mark_all txs ks tid l = Some l' ->
-  (forall k, In k ks -> exists b t, In b c /\ In t (b_txs b) /\ t_id t = tid /\ In k (t_spends t)) ->
+  (forall k, In k ks -> exists b t, In b U /\ In t (b_txs b) /\ t_id t = tid /\ In k (t_spends t)) ->
   Forall note_sound l -> Forall note_sound l' /\ map n_key l' = map n_key l.
 Proof.
   induction ks as [|k ks IH]; intros l l' H Hks Hl; cbn [mark_all] in H.
@@ -298,11 +302,12 @@ Proof.
       * rewrite Forall_forall in Hs. auto.
       * destruct (Hos o (or_introl eq_refl)) as [Hown [b [t [Hb [Ht [Ho Hid]]]]]].
         split.
-        -- exists b, t, o. repeat split; try assumption; try congruence.
+        -- exists b, t, o. repeat split; try assumption; try congruence; [apply HcU; assumption|].
            unfold owned in Hown. unfold out_acct in Ea. destruct (o_owner o); [congruence | discriminate].
         -- intros x Hx. destruct (Hsp x Hx) as [Hd | [n [Hn0 [Hk Hx']]]].
            ++ destruct (detect_spend nfm locs (o_key o)) as [[t' h']|] eqn:Ed; [|discriminate].
-              inversion Hd; subst. rewrite Ek. eapply detect_spend_sound; eauto.
+              inversion Hd; subst. rewrite Ek.
+              destruct (detect_spend_sound _ _ _ _ _ Hn Hl Ed) as [b1 [t1 [Hb1 Hrest]]]. exists b1, t1. split; [apply HcU; assumption | assumption].
            ++ rewrite Forall_forall in Hs. destruct (Hs _ Hn0) as [_ Hs2]. rewrite Ek, <- Hk. auto.
     + apply (put_note_spec (o_key o) (out_acct o) (o_value o) recv _ notes Hnd).
 Qed.
@@ -323,7 +328,7 @@ Proof.
     inversion E as [E']. clear E.
     destruct (Hws w (or_introl eq_refl)) as [b [t [Hb [Ht [Hid [Hf Ho]]]]]].
     destruct (mark_all_sound _ _ _ _ _ Em) as [Hs1 Hk1]; [|assumption|].
-    { intros k Hk. exists b, t. repeat split; try assumption; [congruence | auto]. }
+    { intros k Hk. exists b, t. repeat split; try assumption; [apply HcU; assumption | congruence | auto]. }
     assert (Hos : forall o, In o (wt_owned w) -> owned o = true /\ exists b t, In b c /\ In t (b_txs b) /\ In o (t_outs t) /\ t_id t = wt_id w).
     { intros o Ho'. specialize (Ho o Ho'). apply filter_In in Ho. destruct Ho as [Ho1 Ho2]. split; [assumption|].
       exists b, t. repeat split; try assumption. congruence. }
@@ -714,7 +719,7 @@ Proof.
   assert (Hr : receipts c (w_blocks s) (w_notes s)).
   { assert (H0 : receipts c (w_blocks init) (w_notes init)) by (intros b' _ Hhas'; discriminate).
     exact (run_receipts c birthday Hh ops init s Hops Hrun H0). }
-  assert (Hs : sound c s) by (eapply run_sound; eauto using init_sound).
+  assert (Hs : sound c c s) by (eapply (run_sound c c (incl_refl c)); eauto using init_sound).
   assert (Howned : owned o = true) by (unfold owned; rewrite Hown; reflexivity).
   specialize (Hr b Hb Hhas t o Ht Ho Howned). unfold has_key in Hr. apply in_map_iff in Hr.
   destruct Hr as [n [Ek Hn]]. exists n. split; [assumption|]. split; [assumption|].
@@ -739,7 +744,7 @@ Lemma ledger_sound_lemma :
     /\ (forall h x, In (h, x) (w_blocks s) -> exists b, In b c /\ b_height b = h /\ b_hash b = x).
 Proof.
   intros birthday c ops s Hh Hops Hrun.
-  destruct (run_sound c birthday Hh ops init s Hops Hrun (init_sound c)) as [S1 S2 S3 _ _].
+  destruct (run_sound c c (incl_refl c) birthday Hh ops init s Hops Hrun (init_sound c c)) as [S1 S2 S3 _ _].
   rewrite Forall_forall in S1, S2. split; [exact S2|]. split; [exact S3|].
   intros h x Hin. exact (S1 _ Hin).
 Qed.
